@@ -441,6 +441,20 @@ def _decide(ob, tier, res):
         else:
             res['notes'].append('path %d: reachability twin unknown' % pi)
             any_reachable = True
+        if getattr(ob, 'congruence', False):
+            # translate every claim first (creates the atoms), then let the solver identify atoms whose
+            # arguments it can prove equal on this path; the proven equalities are lemmas for the claims
+            for c in cx.claims:
+                try:
+                    ct_, w_ = _claim_term(c)
+                    enc.tr(ct_)
+                    if w_ is not None:
+                        enc.tr(w_)
+                except NotEncodable:
+                    pass
+            lem, nq = _congruence(enc, zbase, getattr(ob, 'congruence_budget_s', 60))
+            zbase = zbase + lem
+            res['congruence_lemmas'] = res.get('congruence_lemmas', 0) + len(lem)
         for c in cx.claims:
             res['claims'] += 1
             label = '%s[path%d]' % (c.label, pi) if len(paths) > 1 else c.label
@@ -471,7 +485,7 @@ def _decide(ob, tier, res):
                         continue
                 if when is not None:
                     # cheap pre-check: is the claim's precondition reachable on this path at all?
-                    pre = smt.solve(enc, zbase + extra[1:], min(ob.timeout_s, 10), label=ob.id + ':' + label + ':when', want_model=False)
+                    pre = smt.solve(enc, zbase + extra[1:], getattr(ob, 'when_timeout_s', 2), label=ob.id + ':' + label + ':when', want_model=False)
                     if pre.status == 'unsat':
                         res['discharged'] += 1
                         res['vacuous_when'] = res.get('vacuous_when', 0) + 1
@@ -531,6 +545,52 @@ def _decide(ob, tier, res):
                     res['inconclusive'].append({'label': label, 'reason': 'solver witness did not reproduce on the real code: %s' % rep.get('detail', '')})
 
 
+def _congruence(enc, zbase, budget_s=60, per_query_s=2):
+    """Solver-proved congruence: two root variables (same index) or two atoms of the same function whose
+    arguments are provably equal under zbase are equal.  Returns ([z3 lemmas], queries).  Each lemma is
+    justified by an `unsat' answer; later proofs may use earlier lemmas (inner atoms come first)."""
+    import z3
+    items = []
+    for key, w in enc.roots.items():
+        if isinstance(key[0], T.Term):
+            items.append((('root', key[1]), w, [enc.memo[key[0]]]))
+    for key, v in enc.fn_atoms.items():
+        if str(key.args[0]).startswith('uf:'):
+            continue
+        items.append((('fn', key.args[0], len(key.args)), v, [enc.memo[a] for a in key.args[1:]]))
+
+    def idx(v):
+        try:
+            return int(str(v).split('!')[-1])
+        except ValueError:
+            return 0
+    items.sort(key=lambda it: idx(it[1]))
+    lemmas = []
+    t0 = time.time()
+    nq = 0
+    for j in range(len(items)):
+        for i in range(j):
+            if items[i][0] != items[j][0]:
+                continue
+            if time.time() - t0 > budget_s:
+                return lemmas, nq
+            same = z3.And(*[a == b for a, b in zip(items[i][2], items[j][2])])
+            s = z3.Solver()
+            s.set('timeout', int(per_query_s * 1000))
+            for z in zbase + lemmas:
+                s.add(z)
+            for ax in enc.axioms:
+                s.add(ax)
+            s.add(z3.Not(same))
+            nq += 1
+            t1 = time.time()
+            r = str(s.check())
+            smt.QUERY_LOG.append(('congruence', r, time.time() - t1))
+            if r == 'unsat':
+                lemmas.append(items[i][1] == items[j][1])
+    return lemmas, nq
+
+
 def z3not(z):
     import z3
     return z3.Not(z)
@@ -560,7 +620,7 @@ def _validate(ob, enc, out, model, res, cache, p):
     try:
         # is the model robustly inside the path (no branch atom sitting on its boundary)?
         for t in p.pc:
-            if not _robust(t, env):
+            if not _robust(t, env, getattr(ob, 'validate_negated', False)):
                 res['validation_skipped'] += 1
                 return
         conc = NumCtx(ob, {k: v for k, v in env.items() if '!' not in k}, cache)._run()
@@ -609,10 +669,12 @@ def _validate(ob, enc, out, model, res, cache, p):
         res['validated'] += 1
 
 
-def _robust(t, env):
-    """branch atom evaluates with a margin at env (so the float run takes the same branch)"""
+def _robust(t, env, neg_ok=False):
+    """branch atom evaluates with a margin at env (so the float run takes the same branch).
+    neg_ok (opt-in, Obligation.validate_negated): a negated atom only needs the margin; its truth is
+    checked on the whole condition below (otherwise a path with a negated atom is never validated)"""
     if t.op == 'not':
-        if not _margin(t.args[0], env):
+        if not _margin(t.args[0], env, not neg_ok):
             return False
     elif t.op in ('and', 'or'):
         if not all(_margin(a, env) for a in t.args):
@@ -625,11 +687,11 @@ def _robust(t, env):
         return False
 
 
-def _margin(t, env):
+def _margin(t, env, truth=True):
     if t.op == 'not':
-        return _margin(t.args[0], env)
+        return _margin(t.args[0], env, truth)
     if t.op in ('and', 'or'):
-        return all(_margin(a, env) for a in t.args)
+        return all(_margin(a, env, truth) for a in t.args)
     if t.op in ('lt', 'le', 'eq'):
         try:
             a = T.evalf(t.args[0], env)
@@ -640,6 +702,8 @@ def _margin(t, env):
             return False
     # the atom must also be TRUE at env under the true transcendental functions (a model may
     # realise free atoms inconsistently with the real functions)
+    if not truth:
+        return True
     try:
         return bool(T.evalf(t, env))
     except Exception:
